@@ -108,12 +108,11 @@ let is_number (s : String.t) =
 let parse_tok t = if is_number (string_of_coq t) then Some t else None
 
 (* pass-through "library": embedding = one row per sample = transpose of the feature matrix *)
-(* the library validates target_dimension in [1, min(#samples, #features)) for every method, pass-through
-   included; the file stream runs with --td 1, so fewer than 2 samples or 2 features is an exception *)
+(* the library validates target_dimension in [1, #samples) for every method, pass-through included; the
+   file stream runs with --td 1, so fewer than 2 samples (columns of the feature matrix) is an exception *)
 let passthru _ _ features =
-  let n = List.length features in
-  let m = match features with r :: _ -> List.length r | [] -> 0 in
-  if n < 2 || m < 2 then None else Some (transpose features, None)
+  let samples = match features with r :: _ -> List.length r | [] -> 0 in
+  if samples < 2 then None else Some (transpose features, None)
 
 let split_args toks =
   (* toks after the command: '[' args ']' rest *)
